@@ -249,7 +249,7 @@ def impl_runs(wd, explore, replay, budget, name):
         json.dump(dict(explore=explore, replay=replay, budget=budget, scratch=scratch), f)
     try:
         p = subprocess.run([sys.executable, os.path.abspath(__file__), '--worker', inp, outp], capture_output=True, text=True,
-                           timeout=1800, env=dict(os.environ, PYTHONHASHSEED='0'))
+                           timeout=300, env=dict(os.environ, PYTHONHASHSEED='0'))
     except subprocess.TimeoutExpired as ex:
         raise tlc.MachineryError('conf_parselock worker timed out') from ex
     if p.returncode != 0 or not os.path.exists(outp):
